@@ -1139,7 +1139,8 @@ impl<F: RichField + Extendable<D>, const D: usize> CircuitBuilder<F, D> {
         let degree_bits = log2_strict(degree);
         let fri_params = self.fri_params(degree_bits);
         assert!(
-            fri_params.total_arities() <= degree_bits + rate_bits - cap_height,
+            fri_params.total_arities() <= degree_bits + rate_bits - cap_height
+                && fri_params.total_arities() <= degree_bits,
             "FRI total reduction arity is too large.",
         );
 
